@@ -10,6 +10,7 @@ import (
 	"os"
 	"os/exec"
 	"path/filepath"
+	"sort"
 	"strconv"
 	"strings"
 
@@ -237,7 +238,8 @@ var listCache = map[string][]string{}
 func cliFiles() map[string][]string {
 	return map[string][]string{"three.txt": {"alpha", "bravo", "charlie"}, "dups.txt": {"alpha", "bravo", "alpha", "charlie", "bravo"},
 		"twin.txt": {"polish", "Polish", "alpha"}, "empty.txt": {}, "one.txt": {"solo"}, "onedup.txt": {"solo", "solo", "solo"},
-		"percent.txt": {"a%sb", "q%%r", "100%", "%d"}, "longline.txt": longLineWords()}
+		"percent.txt": {"a%sb", "q%%r", "100%", "%d"}, "longline.txt": longLineWords(),
+		"longword.txt": {"alpha", "bravo", strings.Repeat("x", 70000), "charlie", "delta", "echo", "foxtrot", "golf"}}
 }
 
 // longLineWords: 12000 distinct words; the file puts them all on ONE line (> 64 KiB)
@@ -257,17 +259,18 @@ func couldGenerate(s string, kept []string, n int, scheme string, seps []string)
 	}
 	lower := map[string]bool{}
 	title := map[string]bool{}
-	maxLen := 0
+	lenSet := map[int]bool{}
 	for _, w := range kept {
 		lower[w] = true
 		title[ref.Title(w)] = true
-		if len(w) > maxLen {
-			maxLen = len(w)
-		}
-		if l := len(ref.Title(w)); l > maxLen {
-			maxLen = l
-		}
+		lenSet[len(w)] = true
+		lenSet[len(ref.Title(w))] = true
 	}
+	var lens []int
+	for l := range lenSet {
+		lens = append(lens, l)
+	}
+	sort.Ints(lens)
 	type st struct{ pos, k, mask int }
 	seen := map[st]bool{}
 	var ok func(pos, k, mask int) bool
@@ -305,7 +308,10 @@ func couldGenerate(s string, kept []string, n int, scheme string, seps []string)
 			}
 		}
 		for _, p0 := range starts {
-			for l := 1; l <= maxLen && p0+l <= len(s); l++ {
+			for _, l := range lens {
+				if l < 1 || p0+l > len(s) {
+					continue
+				}
 				sub := s[p0 : p0+l]
 				if lower[sub] && ok(p0+l, k+1, mask) {
 					return true
@@ -447,12 +453,12 @@ func c17Run(c *core.Ctx) {
 			return
 		}
 	}
-	lists := []wordsCase{{List: ""}, {List: "words"}, {List: "syllables"}, {List: "nope"}, {File: "three.txt"}, {File: "dups.txt"}, {File: "twin.txt"}, {File: "empty.txt"}, {File: "one.txt"}, {File: "onedup.txt"}, {File: "percent.txt"}, {File: "longline.txt"}}
+	lists := []wordsCase{{List: ""}, {List: "words"}, {List: "syllables"}, {List: "nope"}, {File: "three.txt"}, {File: "dups.txt"}, {File: "twin.txt"}, {File: "empty.txt"}, {File: "one.txt"}, {File: "onedup.txt"}, {File: "percent.txt"}, {File: "longline.txt"}, {File: "longword.txt"}}
 	sizes := []string{"", "0", "1", "3"}
 	seps := []string{"", "hyphen", "space", "comma", "period", "underscore", "digit", "none"}
 	caps := []string{"", "none", "first", "all", "random", "one"}
 	if !c.Thorough() {
-		lists = []wordsCase{{List: ""}, {List: "syllables"}, {List: "nope"}, {File: "three.txt"}, {File: "dups.txt"}, {File: "twin.txt"}, {File: "empty.txt"}, {File: "one.txt"}, {File: "onedup.txt"}, {File: "percent.txt"}, {File: "longline.txt"}}
+		lists = []wordsCase{{List: ""}, {List: "syllables"}, {List: "nope"}, {File: "three.txt"}, {File: "dups.txt"}, {File: "twin.txt"}, {File: "empty.txt"}, {File: "one.txt"}, {File: "onedup.txt"}, {File: "percent.txt"}, {File: "longline.txt"}, {File: "longword.txt"}}
 		sizes = []string{"", "0", "3"}
 		seps = []string{"", "space", "digit", "none"}
 		caps = []string{"", "first", "random", "one"}
